@@ -16,9 +16,9 @@ ORTH_FLOOR = 1e-8   # allowance for a chance near-coincidence of two singular va
 
 
 @st.composite
-def rsvd_cases(draw, tier):
-    hi = 8 if tier == "quick" else 10
-    m, n = draw(st.integers(1, hi)), draw(st.integers(1, hi))
+def rsvd_cases(draw, tier, size=None):
+    lo_, hi = size or (1, 8 if tier == "quick" else 10)
+    m, n = draw(st.integers(lo_, hi)), draw(st.integers(lo_, hi))
     k = min(m, n)
     src = draw(st.sampled_from(["spectrum", "spectrum", "lowrank", "lowrank", "pattern"]))
     if src == "spectrum":
@@ -188,6 +188,8 @@ PROPERTY = Property(
     title="Randomized Q-SVDs: orthonormal factors, interlacing values, exact on low rank",
     rule="R + oversample > min(m,n), or rank(A) < min(m,n), or min(m,n) <= 3",
     clauses=[Clause("rsvd", check_rsvd, strategy=rsvd_cases, budget={"quick": 1200, "thorough": 16000}),
+             Clause("rsvd_moderate_size", check_rsvd, strategy=lambda tier: rsvd_cases(tier, size=(11, 24 if tier == "quick" else 40)),
+                    budget={"quick": 40, "thorough": 400}, shrink=False),
              Clause("rsvd_long_dimension", check_rsvd, strategy=long_cases, budget={"quick": 320, "thorough": 3200},
                     shrink=False)],
     assumptions=[
